@@ -447,6 +447,14 @@ PINNED = {
         ("c", 'static int bx[4] = { 20, 21, 22, 23 };\nstatic int *volatile bp = &bx[3];\nint b_get(void) { return *bp; }\n'),
         ("c", 'static int cx[4] = { 30, 31, 32, 33 };\nstatic int *volatile cp = &cx[1];\nint c_get(void) { return *cp; }\n')],
         parts=[[0], [3], [1, 2]], nest=[(1, 2)], kinds=["pie"]),
+    # TLSDESC local-dynamic code references the linker-defined _TLS_MODULE_BASE_
+    "tls-module-base": dict(cm="pic", flags={1: ["-O2", "-mtls-dialect=gnu2"]}, units=[
+        ("c", _HDR + 'extern int t_get(void);\nextern int fill_1(int);\nint main() { P("tls_ld", "m:t_get", t_get()); P("call", "m:f", fill_1(1)); '
+                     'P("data", "m:1", 1); P("data", "m:2", 2); P("data", "m:3", 3); ' + _MAIN_TAIL),
+        ("c", '__thread int ta __attribute__((tls_model("local-dynamic"), visibility("hidden"))) = 11;\n'
+              '__thread int tb __attribute__((tls_model("local-dynamic"), visibility("hidden"))) = 22;\n'
+              '__attribute__((noinline)) int t_get(void) { return ta + tb; }\nvoid t_set(int v) { ta = v; tb = v; }\n'),
+        ("c", _FILL % (1, 1))], parts=[[1, 2], [0]], nest=[], kinds=["pie"]),
     # wild's final link of a wild -r output: references into merged strings
     "merged-string": dict(cm="nopic", units=[
         ("c", '#include <stdio.h>\nstruct e { int tag; const char *name; };\nstatic const struct e e0 = { 5, "name-e0" };\nconst struct e *const ep = &e0;\n'
@@ -463,7 +471,7 @@ def pinned_prog(ctx, name):
     for k, (lang, src) in enumerate(spec["units"]):
         u = pg.Unit(f"p{k}", lang, "exe")
         u.src["*"] = src
-        u.cflags = ["-O1"]
+        u.cflags = spec.get("flags", {}).get(k, ["-O1"])
         prog.units.append(u)
     prog.needs_cxx = bool(spec.get("cxx"))
     prog.desc = "pinned:" + name
